@@ -1,6 +1,6 @@
 (* Stage (c)/(d) of C01: the block-free statements against the VM's store. *)
 From V Require Import Lang.RefSem Lang.Codegen Lang.Vm Lang.Observe Lang.Wt Proofs.C01Sim Proofs.C01Expr Proofs.C01Flags.
-From V Require Import Proofs.C01Store Proofs.C01Gen Proofs.C01Cases Proofs.C01Stmt.
+From V Require Import Proofs.C01Store Proofs.C01Gen Proofs.C01Cases Proofs.C01Stmt Proofs.C01Pure.
 From Coq Require Import Lia.
 Local Open Scope Z_scope.
 
@@ -28,19 +28,6 @@ Notation run_post := (C01Stmt.run_post E decls file line o).
 Notation exec_simple := (RefSem.exec_simple E decls file line).
 Notation gexec_stmt := (RefSem.gexec_stmt E decls file line).
 Notation mty := (RefSem.mty decls).
-
-Lemma stamp_eq rs tm : tm = time_reg rs -> Vm.stamp tm = dtime_of (RefSem.stamp rs).
-Proof. intros ->. unfold Vm.stamp, RefSem.stamp. destruct (time_is_zero (time_reg rs)); reflexivity. Qed.
-
-Lemma rel_write rs ms tm vs m keys p v :
-  rel rs ms tm vs -> points (vs_store vs) (N.to_nat m) keys p -> vty v = mty m ->
-  rel (RefSem.write m keys v rs) ms tm
-      (Vm.with_store vs (mkstore (list_set (s_heap (vs_store vs)) p (mkdcell (dval_of v) (Vm.stamp tm)))
-                                 (s_mets (vs_store vs)))).
-Proof.
-  intros [Hm Ht Hs Hmm] Hp Hv. constructor; cbn; auto.
-  rewrite (stamp_eq rs tm Ht). apply write_sim; auto.
-Qed.
 
 (* a simple statement: its result decides the run, the flag is kept *)
 Lemma ssim_simple s :
@@ -80,11 +67,6 @@ Qed.
 Lemma wt_lval m ks :
   metric_ok decls m (exprs_len ks) = true -> keys_ok ks = true -> ksim E decls file line o ks.
 Proof. intros _ Hk. exact (proj2 (esim_all E decls file line o Hmets) ks Hk). Qed.
-
-Lemma heap_upd_ok st p c c' (f : dcell -> Vm.res dcell) :
-  nth_error (s_heap st) p = Some c -> f c = Ok c' ->
-  heap_upd st p f = Ok (mkstore (list_set (s_heap st) p c') (s_mets st)).
-Proof. intros H1 H2. unfold heap_upd. rewrite H1, H2. reflexivity. Qed.
 
 (* ++ and -- *)
 Lemma ssim_incdec (dec : bool) m ks :
@@ -128,7 +110,7 @@ Proof.
       rewrite nth_error_list_set_same by (apply nth_error_Some; congruence). reflexivity.
     + rewrite (Hup 1) by auto. cbn. unfold datum_int. cbn [s_heap].
       rewrite nth_error_list_set_same by (apply nth_error_Some; congruence). reflexivity.
-  - apply (rel_write rs1 ms1 tm vs1 m keys p (RInt z')); [exact Hrel1 | exact Hpts | rewrite Hmt; reflexivity].
+  - apply (rel_write E decls rs1 ms1 tm vs1 m keys p (RInt z')); [exact Hrel1 | exact Hpts | rewrite Hmt; reflexivity].
 Qed.
 
 Lemma mty_nb m n : metric_ok decls m n = true -> mty m <> TBool.
@@ -246,7 +228,7 @@ Proof.
       { eapply heap_upd_ok; [exact Hcell|]. unfold cell_inc, cell_of. cbn [d_val]. rewrite Hz. reflexivity. }
       inversion Hw; subst; cbn; rewrite Hup; cbn; unfold datum_int; cbn [s_heap];
         rewrite nth_error_list_set_same by (apply nth_error_Some; congruence); reflexivity.
-  - apply (rel_write rs2 ms2 tm vs2 m keys p (RInt (i_add z y))); [exact Hrel2 | exact Hpts2 | rewrite Hmt; reflexivity].
+  - apply (rel_write E decls rs2 ms2 tm vs2 m keys p (RInt (i_add z y))); [exact Hrel2 | exact Hpts2 | rewrite Hmt; reflexivity].
 Qed.
 
 Lemma str_index sid x : str_ok (o_strs o) sid x = true ->
@@ -365,6 +347,116 @@ Proof.
   - cbn [run_post]. exists (1 + n + 1)%nat, (mkthread (pc + 1 + L + 1) (VMetric (N.to_nat m) :: map VStr (rev keys) ++ VDur d :: stk) g ms1 tm), ENoDatum, vs1.
     split; [lia|]. split; [exact Hst2|]. split; [|destruct Hrel1; auto].
     eapply step_err; [exact H1|]. cbn -[zl pop_metric_keys]. rewrite (pop_mk _ _ _ keys _ Hlen). cbn. rewrite Hex. reflexivity.
+Qed.
+
+(* += on a Float or text metric: the target is emitted (and its keys evaluated) twice *)
+Lemma ws_id s : RefSem.with_store s (rs_store s) = s.
+Proof. destruct s; reflexivity. Qed.
+
+Lemma points_fun st m ks p p' : points st m ks p -> points st m ks p' -> p = p'.
+Proof. intros (l1 & v1 & H1 & H2 & H3) (l2 & v2 & H4 & H5 & H6). congruence. Qed.
+
+Lemma exec_addop t x y w p c pc' stk g ms tm vs :
+  (t = TFloat \/ t = TStr) -> vty x = t -> vty y = t -> vrel y w ->
+  nth_error (s_heap (vs_store vs)) p = Some c -> d_val c = dval_of x ->
+  exists r, add_vals E t x y = (fun s => ROk r s) /\ vty r = t /\
+    exec E o ll (ins (arith_op AAdd t) ONil) (mkthread pc' (w :: VDatum p :: stk) g ms tm) vs =
+    Ok (XNext (mkthread pc' (inj r :: stk) g ms tm) vs).
+Proof.
+  intros [-> | ->] Hx Hy Hw Hc Hd.
+  - apply vty_float in Hx as [a ->]. apply vty_float in Hy as [b ->]. inversion Hw; subst.
+    exists (RFloat (fl_add E a b)). split; [reflexivity|]. split; [reflexivity|].
+    cbn. unfold datum_float. rewrite Hc, Hd. reflexivity.
+  - apply vty_str in Hx as [a ->]. apply vty_str in Hy as [b ->]. inversion Hw; subst.
+    exists (RStr (a ++ b)). split; [reflexivity|]. split; [reflexivity|].
+    cbn. unfold datum_str. rewrite Hc, Hd. reflexivity.
+Qed.
+
+Lemma shift_len d ks : exprs_len (shift_exprs d ks) = exprs_len ks.
+Proof.
+  induction ks as [|e0 r IH]; [reflexivity|].
+  change (shift_exprs d (XCons e0 r)) with (XCons (shift_expr d e0) (shift_exprs d r)). cbn [exprs_len]. congruence.
+Qed.
+
+Lemma ssim_addto_dup t m ks e :
+  (t = TFloat \/ t = TStr) ->
+  metric_ok decls m (exprs_len ks) = true -> keys_ok ks = true -> ty_eqb (wmty decls m) t = true ->
+  Wt.opt_ty_is (etype e) t = true -> keys_ok (shift_exprs (nstr_exprs ks) ks) = true -> pure_keys ks = true ->
+  ssim (SAddTo t m ks e).
+Proof.
+  intros Ht Hmok Hk Hty Hte Hk2 Hpure.
+  assert (Hmt : mty m = t) by (change (mty m) with (wmty decls m); destruct (wmty decls m), t; cbn in Hty; congruence).
+  assert (Hnb : t <> TBool) by (destruct Ht; subst; discriminate).
+  set (ks' := shift_exprs (nstr_exprs ks) ks) in *.
+  assert (Hlen' : exprs_len ks' = exprs_len ks) by apply shift_len.
+  apply ssim_simple; [reflexivity|]. intros pc stk g ms tm rs vs Hat Hrel.
+  assert (Hcode : cstmt pc (SAddTo t m ks e) =
+            clval decls pc m ks ++ clval decls (pc + length (clval decls pc m ks)) m ks' ++
+            cexpr (pc + length (clval decls pc m ks) + length (clval decls (pc + length (clval decls pc m ks)) m ks')) e ++
+            [ins (arith_op AAdd t) ONil; ins (set_op t) ONil]) by (destruct Ht; subst; reflexivity).
+  rewrite Hcode in *. clear Hcode.
+  set (L1 := length (clval decls pc m ks)) in *.
+  set (L2 := length (clval decls (pc + L1) m ks')) in *.
+  set (L3 := length (cexpr (pc + L1 + L2) e)) in *.
+  apply at_pc_app in Hat as [Hat1 Hat2]. apply at_pc_app in Hat2 as [Hat2 Hat3]. apply at_pc_app in Hat3 as [Hat3 Hat4].
+  fold L1 in Hat2. fold L2 in Hat3. fold L3 in Hat4.
+  replace (length (clval decls pc m ks ++ clval decls (pc + L1) m ks' ++ cexpr (pc + L1 + L2) e ++ [ins (arith_op AAdd t) ONil; ins (set_op t) ONil]))
+    with (L1 + L2 + L3 + 2)%nat by (rewrite !app_length; cbn; lia).
+  change (exec_simple (SAddTo t m ks e) rs) with
+    (rbind (target E decls file line m ks rs) (fun kv s1 =>
+       rbind (eval e s1) (fun v s2 =>
+         rbind (add_vals E t (current decls m (fst kv) s2) v s2) (fun r s3 => ROk tt (RefSem.write m (fst kv) r s3))))).
+  pose proof (sim_lval E decls file line o Hmets m ks Hmok (wt_lval m ks Hmok Hk) pc stk g ms tm rs vs Hat1 Hrel) as H.
+  fold L1 in H.
+  (* the keys are effect free *)
+  pose proof (pure_keys_eval E decls file line ks Hpure rs) as Hpk.
+  unfold target in *.
+  destruct (eval_keys ks rs) as [keys rsk|[|x] rsk]; cbn [RefSem.bind] in *; [| contradiction | ].
+  2:{ destruct H as (n & t1 & e' & vs' & Hn & Hst & Hx). cbn. exists n, t1, e', vs'. split; [lia|]. auto. }
+  destruct Hpk as [-> Hsh].
+  destruct (obtain decls m keys (rs_store rs)) as [v0 st0] eqn:Hob. cbn [fst snd RefSem.bind] in *.
+  set (rs1 := RefSem.with_store rs st0) in *.
+  destruct H as (p & ms1 & vs1 & n1 & Hn1 & Hst1 & Hrel1 & _ & Hpts & _).
+  (* second evaluation of the target *)
+  assert (Hmok2 : metric_ok decls m (exprs_len ks') = true) by (rewrite Hlen'; exact Hmok).
+  pose proof (sim_lval E decls file line o Hmets m ks' Hmok2 (wt_lval m ks' Hmok2 Hk2) (pc + L1)%nat (VDatum p :: stk) g ms1 tm rs1 vs1 Hat2 Hrel1) as H2.
+  fold L2 in H2. unfold target in H2. unfold ws in Hsh.
+  change (eval_keys ks' rs1) with (eval_keys (shift_exprs (nstr_exprs ks) ks) (RefSem.with_store rs st0)) in H2.
+  rewrite (Hsh (nstr_exprs ks) st0) in H2. fold rs1 in H2. cbn [RefSem.bind] in H2.
+  destruct (points_cell decls _ _ m keys p (r_s _ _ _ _ _ _ Hrel1) Hpts) as (d1 & Hfd1 & _ & _).
+  unfold obtain in H2. rewrite Hfd1 in H2. cbn [fst snd] in H2. rewrite ws_id in H2.
+  destruct H2 as (p' & ms1' & vs1' & n2 & Hn2 & Hst2 & Hrel1' & Hext1 & Hpts' & _).
+  assert (p' = p) by (eapply points_fun; [exact Hpts' | apply Hext1; exact Hpts]). subst p'.
+  (* the right side *)
+  pose proof (proj1 (esim_all E decls file line o Hmets) e t (opt_is _ _ Hte) (pc + L1 + L2)%nat (VDatum p :: VDatum p :: stk) g ms1' tm rs1 vs1' Hat3 Hrel1') as H3.
+  fold L3 in H3.
+  destruct (eval e rs1) as [v rs2|[|x] rs2]; cbn [RefSem.bind]; [| contradiction | ].
+  2:{ destruct H3 as (n & t1 & e' & vs' & Hn & Hst & Hx). cbn. exists (n1 + n2 + n)%nat, t1, e', vs'. split; [lia|].
+      split; [|exact Hx]. replace (n1 + n2 + n)%nat with (n1 + (n2 + n))%nat by lia.
+      rewrite (nsteps_app _ _ _ _ _ _ _ _ _ Hst1), (nsteps_app _ _ _ _ _ _ _ _ _ Hst2). exact Hst. }
+  destruct H3 as (Hv & stk' & ms2 & vs2 & n3 & (w & [Hw _] & ->) & Hn3 & Hst3 & Hrel2 & Hext2).
+  pose proof (Hext2 _ _ _ Hpts') as Hpts2.
+  destruct (points_cell decls _ _ m keys p (r_s _ _ _ _ _ _ Hrel2) Hpts2) as (d2 & Hfd2 & Hcell2 & Hdt2).
+  rewrite Hmt in Hdt2.
+  unfold current. rewrite Hfd2.
+  destruct (exec_addop t (rd_val d2) v w p (cell_of d2) (S (pc + L1 + L2 + L3)) (VDatum p :: stk) g ms2 tm vs2 Ht Hdt2 Hv Hw Hcell2 eq_refl)
+    as (r & Hadd & Hr & Hx1).
+  rewrite Hadd. cbn [RefSem.bind run_post].
+  exists stk, ms2, tm,
+    (Vm.with_store vs2 (mkstore (list_set (s_heap (vs_store vs2)) p (mkdcell (dval_of r) (Vm.stamp tm))) (s_mets (vs_store vs2)))),
+    (n1 + n2 + n3 + 1 + 1)%nat.
+  split; [lia|]. split.
+  - assert (Hst123 : nsteps (n1 + n2 + n3) (mkthread pc stk g ms tm) vs =
+        Some (mkthread (pc + L1 + L2 + L3) (w :: VDatum p :: VDatum p :: stk) g ms2 tm, vs2)).
+    { replace (n1 + n2 + n3)%nat with (n1 + (n2 + n3))%nat by lia.
+      rewrite (nsteps_app _ _ _ _ _ _ _ _ _ Hst1), (nsteps_app _ _ _ _ _ _ _ _ _ Hst2). exact Hst3. }
+    eapply nsteps_snoc.
+    + eapply nsteps_snoc; [exact Hst123|]. eapply step_next; [exact (at_pc_head _ _ _ _ Hat4) | exact Hx1].
+    + replace (pc + (L1 + L2 + L3 + 2))%nat with (S (S (pc + L1 + L2 + L3))) by lia.
+      eapply step_next; [replace (S (pc + L1 + L2 + L3)) with (pc + L1 + L2 + L3 + 1)%nat by lia; exact (fetch_off _ _ 1 _ _ Hat4 eq_refl)|].
+      eapply exec_set; [exact Hnb | exact Hr | apply vrel_inj | exact Hcell2 |].
+      apply cell_type_of; [exact Hdt2 | exact Hnb].
+  - apply rel_write; [exact Hrel2 | exact Hpts2 | rewrite Hmt; exact Hr].
 Qed.
 
 End Simple.
